@@ -17,6 +17,10 @@
  *                               mode ok|flip|upper|trunc|empty|schal0; cookie - = the secret of the announced id
  *   result:  per step  <rc>:<outgoing hex>   (R steps are preceded by @<hex of the bytes fed>)
  *            then      end <rc> id=<uid>/<pid>/<gids> unused=<hex> fdneg=<b> keyfile=<id:age:secret/...>
+ *   keyring ctx=C kdir=D lines=L ops=O     drives a DBusKeyring directly (dbus-keyring.c)
+ *     L  items separated by '/':  R<hex> a verbatim line;  K<idhex>,<age>,<secrethex>,<sephex>,<timeprefixhex> writes
+ *        id sep timeprefix decimal(now-age) sep secret      O  comma separated: B (_dbus_keyring_get_best_key), H<id> (_dbus_keyring_get_hex_key)
+ *     result: now=<t> new=<1|0> then per op  B:<id|-1>  H:<hexkey|->  then keyfile=<id:age:secret/...>
  *   sha1 <hex>      -> _dbus_sha_compute
  *   hexdec <hex>    -> _dbus_string_hex_decode: <end> <decoded hex>
  *   uidstr <hex>    -> _dbus_credentials_add_from_user (FLAGS_NONE): uid or -
@@ -194,11 +198,92 @@ static void print_keyfile (const char *ctx)
   if (first) fputs ("-", stdout);
 }
 
+/* write the keyring file of context ctx from the line items; returns the time used as "now" */
+static long write_key_items (const char *dir, const char *ctx, const char *items)
+{
+  char p[800]; FILE *f; char *ks = strdup (items), *sv, *k; long now = (long) time (NULL);
+  snprintf (p, sizeof p, "%s/%s", dir, ctx);
+  f = fopen (p, "w");
+  if (f != NULL)
+    {
+      for (k = strtok_r (ks, "/", &sv); k != NULL; k = strtok_r (NULL, "/", &sv))
+        {
+          if (k[0] == 'R')
+            { int n; unsigned char *b = unhex (k + 1, &n); fwrite (b, 1, (size_t) n, f); fputc ('\n', f); free (b); }
+          else if (k[0] == 'K')
+            {
+              char *a = strdup (k + 1), *sv2, *f_id = strtok_r (a, ",", &sv2), *f_age = strtok_r (NULL, ",", &sv2), *f_sec = strtok_r (NULL, ",", &sv2),
+                   *f_sep = strtok_r (NULL, ",", &sv2), *f_tp = strtok_r (NULL, ",", &sv2);
+              if (f_id && f_age && f_sec && f_sep && f_tp)
+                {
+                  int n1, n2, n3, n4; unsigned char *b1 = unhex (f_id, &n1), *b2 = unhex (f_sec, &n2), *b3 = unhex (f_sep, &n3), *b4 = unhex (f_tp, &n4);
+                  fwrite (b1, 1, (size_t) n1, f); fwrite (b3, 1, (size_t) n3, f); fwrite (b4, 1, (size_t) n4, f);
+                  fprintf (f, "%ld", now - atol (f_age));
+                  fwrite (b3, 1, (size_t) n3, f); fwrite (b2, 1, (size_t) n2, f); fputc ('\n', f);
+                  free (b1); free (b2); free (b3); free (b4);
+                }
+              free (a);
+            }
+        }
+      fclose (f);
+      chmod (p, 0600);
+    }
+  free (ks);
+  return now;
+}
+
+static void print_keyfile (const char *ctx);
+
+static void do_keyring (char **toks, int ntok)
+{
+  const char *s_ctx = field (toks, ntok, "ctx"), *s_kdir = field (toks, ntok, "kdir"), *s_lines = field (toks, ntok, "lines");
+  char *ops = strdup (field (toks, ntok, "ops")), *sv, *op;
+  char ctx[600] = "org_freedesktop_general", dir[128];
+  DBusString ctxs; DBusKeyring *kr; DBusError err = DBUS_ERROR_INIT; long now;
+  rm_rf_keyrings ();
+  snprintf (dir, sizeof dir, "%s/.dbus-keyrings", home);
+  if (strcmp (s_kdir, "none") != 0) { mkdir (dir, 0700); chmod (dir, !strcmp (s_kdir, "bad") ? 0755 : 0700); }
+  if (strcmp (s_ctx, "-") != 0)
+    {
+      int n; unsigned char *b = unhex (s_ctx, &n);
+      if (n > 500 || has_nul (b, n)) { printf ("?bad-context\n"); free (b); free (ops); return; }
+      memcpy (ctx, b, (size_t) n); ctx[n] = 0; free (b);
+    }
+  now = (long) time (NULL);
+  if (strcmp (s_lines, "-") != 0 && strcmp (s_kdir, "none") != 0 && strchr (ctx, '/') == NULL && ctx[0] != 0)
+    now = write_key_items (dir, ctx, s_lines);
+  _dbus_string_init_const (&ctxs, ctx);
+  kr = _dbus_keyring_new_for_credentials (NULL, &ctxs, &err);
+  printf ("now=%ld new=%d", now, kr != NULL);
+  if (kr == NULL) { dbus_error_free (&err); printf (" keyfile=-\n"); free (ops); return; }
+  for (op = strtok_r (ops, ",", &sv); op != NULL; op = strtok_r (NULL, ",", &sv))
+    {
+      if (op[0] == 'B')
+        {
+          int id = _dbus_keyring_get_best_key (kr, &err);
+          printf (" B:%d", id);
+          if (id < 0) dbus_error_free (&err);
+        }
+      else if (op[0] == 'H')
+        {
+          DBusString hk;
+          if (!_dbus_string_init (&hk) || !_dbus_keyring_get_hex_key (kr, atoi (op + 1), &hk)) abort ();
+          printf (" H:%s", _dbus_string_get_length (&hk) ? _dbus_string_get_const_data (&hk) : "-");
+          _dbus_string_free (&hk);
+        }
+    }
+  _dbus_keyring_unref (kr);
+  if (strchr (ctx, '/') == NULL && strchr (ctx, ' ') == NULL) print_keyfile (ctx); else fputs (" keyfile=-", stdout);
+  putchar ('\n');
+  free (ops);
+}
+
 static void do_auth (char **toks, int ntok)
 {
   const char *s_uid = field (toks, ntok, "uid"), *s_pid = field (toks, ntok, "pid"), *s_gids = field (toks, ntok, "gids");
   const char *s_mechs = field (toks, ntok, "mechs"), *s_fdp = field (toks, ntok, "fdp"), *s_ctx = field (toks, ntok, "ctx");
-  const char *s_keys = field (toks, ntok, "keys"), *s_kdir = field (toks, ntok, "kdir");
+  const char *s_keys = field (toks, ntok, "keys"), *s_kdir = field (toks, ntok, "kdir"), *s_items = field (toks, ntok, "keyitems");
+  long t_now = (long) time (NULL);
   char *steps = strdup (field (toks, ntok, "steps"));
   char ctx[600] = "org_freedesktop_general";
   char dir[128];
@@ -247,6 +332,8 @@ static void do_auth (char **toks, int ntok)
         }
       free (ks);
     }
+  if (strcmp (s_items, "-") != 0 && strcmp (s_kdir, "none") != 0 && strchr (ctx, '/') == NULL && ctx[0] != 0)
+    t_now = write_key_items (dir, ctx, s_items);
   _dbus_string_init_const (&guid, "feedfacefeedfacefeedfacefeedface");
   auth = _dbus_auth_server_new (&guid);
   if (auth == NULL) abort ();
@@ -363,7 +450,7 @@ static void do_auth (char **toks, int ntok)
         if (un != NULL) puthex ((const unsigned char *) _dbus_string_get_const_data (un), _dbus_string_get_length (un)); else putchar ('N');
       }
     else fputs (" unused=N", stdout);
-    printf (" fdneg=%d", _dbus_auth_get_unix_fd_negotiated (auth) ? 1 : 0);
+    printf (" fdneg=%d now=%ld", _dbus_auth_get_unix_fd_negotiated (auth) ? 1 : 0, t_now);
     print_keyfile (ctx);
     putchar ('\n');
   }
@@ -387,6 +474,7 @@ int main (void)
       for (t = strtok_r (line, " ", &sv); t != NULL && n < 32; t = strtok_r (NULL, " ", &sv)) toks[n++] = t;
       if (n == 0) { printf ("\n"); continue; }
       if (!strcmp (toks[0], "auth")) do_auth (toks + 1, n - 1);
+      else if (!strcmp (toks[0], "keyring")) do_keyring (toks + 1, n - 1);
       else if (!strcmp (toks[0], "sha1") && n >= 2)
         {
           int len; unsigned char *b = unhex (toks[1], &len); DBusString in, out; char mine[41];
